@@ -134,7 +134,10 @@ class C04(EngineACheck):
 
     def run_one(self, ch: Choices) -> RunOutcome:
         out = RunOutcome()
-        root = os.path.join(schedsim.scratch_dir(), "c04files")
+        # relative paths (cwd = this worker's scratch directory): the generated source, and with it
+        # every task and value hash, is then the same in every process that runs this seed
+        os.chdir(schedsim.scratch_dir())
+        root = "c04files"
         shutil.rmtree(root, ignore_errors=True)
         os.makedirs(root)
         proglib.CLOCK[0] = 1_700_000_000.0
